@@ -2,3 +2,4 @@ import Ops.Core
 import Ops.Codec
 import Ops.Transforms
 import Ops.Quant
+import Ops.CornerTable
